@@ -27,6 +27,7 @@ type Engine struct {
 	constG   map[*types.Var]int
 	assigned map[*types.Var]bool
 	repo     string
+	pureMemo map[string]bool
 }
 
 // PropConfig is one entry of /verif/props.json.
@@ -48,6 +49,7 @@ type BoundedCfg struct {
 	Bound    string            `json:"bound"` // human-readable bound
 	Thorough bool              `json:"thorough_only"`
 	Env      map[string]string `json:"env"`
+	KnownEnv map[string]string `json:"known_env"` // environment that excludes the recorded known finding of this stand-in
 }
 
 func main() {
